@@ -38,6 +38,7 @@ def run(ctx):
     check_lock_typestate(ctx)
     check_manager(ctx)
     check_validate_then_mutate(ctx, ef)
+    check_kernel_lock(ctx)
     from .c20 import check_validate_first
     # R12.4 is decided under C20 (R20.5); not repeated here
 
@@ -412,3 +413,60 @@ def check_validate_then_mutate(ctx, ef):
                     f'{how} is reachable while {state}: a rejected request leaves a half-applied edit', line)
     ctx.extra['r123_functions'] = len(fns)
     ctx.extra['r123_nodes_after_mutation_examined'] = total
+
+
+def check_kernel_lock(ctx):
+    """R12.5: the kernel dispatchers run every handler that can modify the tree under the modification lock."""
+    from ..struct import enclosing_tests
+    ctx.rule('R12.5', 'in _put_one / _put_slice / _get_slice / _get_one every dispatch to a handler that can modify the tree (any put; a get with '
+                      '`cut` not known to be false) is inside `with self._modifying(...)`; the lock is what repairs f-string debug text '
+                      'after an edit and excludes nested edits of other nodes', 6)
+    targets = [('fst_put_one', '_put_one'), ('fst_put_slice', '_put_slice'), ('fst_get_slice', '_get_slice'), ('fst_get_one', '_get_one')]
+    for mod, q in targets:
+        for fi in ctx.repo.funcs(mod, q):
+            par = parent_map(fi.node)
+            n = 0
+            for c in walk_no_nested(fi.node):
+                if not (isinstance(c, ast.Call) and isinstance(c.func, ast.Name) and c.func.id in ('handler', '_put_one_raw', '_put_slice_raw')):
+                    continue
+                n += 1
+                locked = False
+                cur = c
+                while cur in par:
+                    cur = par[cur]
+                    if isinstance(cur, ast.With) and any(isinstance(i.context_expr, ast.Call) and call_name(i.context_expr) == '_modifying' for i in cur.items):
+                        locked = True
+                    if cur is fi.node:
+                        break
+                ok = locked
+                why = ''
+                if not locked and q in ('_get_slice', '_get_one'):
+                    tests = enclosing_tests(fi.node, c, par)
+                    # not under `if cut:` -> this is the copy path: allowed if an `if cut:` sibling handles the cut under the lock, i.e. the
+                    # same function has a locked dispatch guarded by `cut`, or deletes through the kernel afterwards (`if cut: self._put_one(None..`)
+                    under_cut = any(norm(t) == 'cut' and pol for t, pol in tests)
+                    has_locked_cut = False
+                    for c2 in walk_no_nested(fi.node):
+                        if isinstance(c2, ast.Call) and ((isinstance(c2.func, ast.Name) and c2.func.id == 'handler') or call_name(c2) == '_put_one'):
+                            t2 = enclosing_tests(fi.node, c2, par)
+                            if any(norm(t) == 'cut' and pol for t, pol in t2):
+                                cur2, l2 = c2, call_name(c2) == '_put_one'
+                                while cur2 in par and not l2:
+                                    cur2 = par[cur2]
+                                    if isinstance(cur2, ast.With) and any(isinstance(i.context_expr, ast.Call) and call_name(i.context_expr) == '_modifying' for i in cur2.items):
+                                        l2 = True
+                                    if cur2 is fi.node:
+                                        break
+                                has_locked_cut = has_locked_cut or l2
+                    ok = (not under_cut) and has_locked_cut
+                    # the unlocked dispatch must be unreachable when cut is true, or harmless: for _get_slice it follows `if cut: with ...: return`
+                    if ok and q == '_get_slice':
+                        # the copy dispatch must come after an `if cut:` whose body returns
+                        ifs = [x for x in fi.node.body if isinstance(x, ast.If) and norm(x.test) == 'cut']
+                        ok = bool(ifs) and any(isinstance(y, ast.Return) for x in ifs for y in ast.walk(x)) and c.lineno > ifs[0].lineno
+                    why = ' (a get that may cut must take the lock on the cut path)'
+                ctx.check('R12.5', ok, fi.module, fi.qualname, c,
+                          'handler dispatched without holding the modification lock' + why + ': f-string self-documenting text is not repaired '
+                          'after the edit (source and Constant.value diverge) and a concurrent nested edit is not refused', c.lineno, sample=norm(c, 70))
+            if n == 0:
+                raise AnalysisError(f'{fi.key}: no handler dispatch found')
